@@ -3,6 +3,7 @@ package rules
 import (
 	"fmt"
 	"go/ast"
+	"go/constant"
 	"go/token"
 	"go/types"
 	"golang.org/x/tools/go/ssa"
@@ -27,11 +28,85 @@ func propC07(c *Ctx) {
 	c.rulePhaseConstructor()
 	c.ruleWhoConstructs()
 	c.ruleLineSource()
+	c.ruleNewlineOwner()
 	c.ruleScanTrace()
 	c.ruleMemoKey()
 	// line numbers are counted in the file's bytes: nothing may rewrite them in place (a normaliser that works on the
 	// slice it was given shifts every later line)
 	c.ruleNormalisers()
+}
+
+// ruleNewlineOwner: Line and Column are asked from the dependency (bytes.Bytes.LineAndColumn), which first finds out
+// whether the file uses LF, CRLF or CR. Whatever else package jerr says about lines (the quoted line, its bounds) has
+// to ask the same owner: a search for a line-break byte written by hand knows one convention only and disagrees with
+// Line/Column on the others.
+func (c *Ctx) ruleNewlineOwner() {
+	r := c.R
+	r.Rule("C07-NEWLINE-OWNER", "package jerr never decides by itself where a line ends: the constants '\\n' and '\\r' (as byte, rune or string) appear there only as text that is written out (argument of a Write*/fmt call), never in a comparison or as the needle of a search; line bounds come from the methods of bytes.Bytes that also give Line and Column", 1)
+	pkj := c.P.Pkg("jerr")
+	if pkj == nil {
+		r.Undecided("C07-NEWLINE-OWNER", "anchor", "package jerr not found", "")
+		return
+	}
+	n, bad := 0, 0
+	for _, f := range c.libFns() {
+		if f.Pkg != pkj {
+			continue
+		}
+		pk := f.Pkg
+		inspectWithStack(f.Decl.Body, func(nd ast.Node, stack []ast.Node) bool {
+			e, ok := nd.(ast.Expr)
+			if !ok {
+				return true
+			}
+			tv, ok := pk.TypesInfo.Types[e]
+			if !ok || tv.Value == nil {
+				return true
+			}
+			isBreak := false
+			switch tv.Value.Kind() {
+			case constant.Int:
+				if _, isLit := e.(*ast.BasicLit); isLit && e.(*ast.BasicLit).Kind == token.CHAR {
+					v, _ := constant.Int64Val(tv.Value)
+					isBreak = v == 10 || v == 13
+				}
+			case constant.String:
+				sv := constant.StringVal(tv.Value)
+				isBreak = sv == "\n" || sv == "\r" || sv == "\r\n"
+			}
+			if !isBreak {
+				return true
+			}
+			n++
+			// allowed: an argument of an output call
+			out := false
+			if len(stack) > 0 {
+				if call, ok := stack[len(stack)-1].(*ast.CallExpr); ok {
+					name := ""
+					switch fx := ast.Unparen(call.Fun).(type) {
+					case *ast.SelectorExpr:
+						name = fx.Sel.Name
+					case *ast.Ident:
+						name = fx.Name
+					}
+					if strings.HasPrefix(name, "Write") || strings.HasPrefix(name, "Fprint") || strings.HasPrefix(name, "Sprint") || strings.HasPrefix(name, "Print") || name == "Join" || name == "Repeat" {
+						out = true
+					}
+				}
+				if be, ok := stack[len(stack)-1].(*ast.BinaryExpr); ok && be.Op == token.ADD {
+					out = true // text being put together
+				}
+			}
+			if !out {
+				bad++
+				r.Bad("C07-NEWLINE-OWNER", f.Name()+" | "+exprString(e), "a line-break constant is used to find or compare line ends by hand: Line and Column come from bytes.Bytes.LineAndColumn, which honours CR-only and CRLF files; a hand-written search knows one convention and the quoted line (or any bound derived from it) disagrees with the reported position", c.pos(e.Pos()))
+			}
+			return false
+		})
+	}
+	if bad == 0 {
+		r.Ok("C07-NEWLINE-OWNER", "package jerr", fmt.Sprintf("%d line-break constant(s), all of them written out as text", n), "")
+	}
 }
 
 // ---------- (file, index) from one source ----------
@@ -810,6 +885,7 @@ func (c *Ctx) ruleMemoKey() {
 		}
 	}
 	var visit func(e ast.Expr, depth int)
+	lossy := ""
 	seen := map[types.Object]bool{}
 	visit = func(e ast.Expr, depth int) {
 		if depth > 6 {
@@ -851,6 +927,30 @@ func (c *Ctx) ruleMemoKey() {
 							if sel, ok := m.(*ast.SelectorExpr); ok && fieldSel(g.Pkg, sel) == hashesF {
 								deps["<hash of the frames below>"] = true
 							}
+							// what is hashed must be the value itself: a function that maps different inputs to
+							// one output (base name, lower case, trimming, cutting) makes different frames share a key
+							if lc, ok := m.(*ast.CallExpr); ok {
+								if lf := callee(g.Pkg, lc); lf != nil && lf.Pkg() != nil {
+									switch lf.Pkg().Path() {
+									case "path", "path/filepath":
+										switch lf.Name() {
+										case "Base", "Ext", "Dir", "VolumeName":
+											lossy = lf.Pkg().Name() + "." + lf.Name()
+										}
+									case "strings", "bytes":
+										switch {
+										case strings.HasPrefix(lf.Name(), "To"), strings.HasPrefix(lf.Name(), "Trim"), strings.HasPrefix(lf.Name(), "Split"),
+											strings.HasPrefix(lf.Name(), "Replace"), strings.HasPrefix(lf.Name(), "Cut"), lf.Name() == "Fields", lf.Name() == "Title", lf.Name() == "Map":
+											lossy = lf.Pkg().Name() + "." + lf.Name()
+										}
+									}
+								}
+							}
+							if se, ok := m.(*ast.SliceExpr); ok {
+								if b, isB := g.Pkg.TypesInfo.TypeOf(se.X).Underlying().(*types.Basic); isB && b.Info()&types.IsString != 0 {
+									lossy = "a substring (" + exprString(se) + ")"
+								}
+							}
 							return true
 						})
 					}
@@ -860,6 +960,11 @@ func (c *Ctx) ruleMemoKey() {
 		})
 	}
 	visit(appended, 0)
+	if lossy != "" {
+		r.Bad("C07-MEMO-KEY", "key is lossy", "the frame hash is computed through "+lossy+", which maps different files to the same text: two frames that differ only in what it drops share a cache key, and a directive gets the include trace of another file", c.pos(push.Decl.Pos()))
+	} else {
+		r.Ok("C07-MEMO-KEY", "key is lossy", "what is hashed is not passed through a function that merges different names (base name, case folding, trimming, cutting)", c.pos(push.Decl.Pos()))
+	}
 	var missing []string
 	for _, need := range append(paramNames, "<hash of the frames below>") {
 		if !deps[need] {
